@@ -1,15 +1,44 @@
 """G02 - DHT lookup/crawl machinery, per-node query rate limiting and ping/refresh maintenance (specification growth).
 
-specs/DhtCrawl.tla   one crawl (Crawl, _find, _contact_node, on_find_response, time-outs, caching store)
-specs/DhtNode.tla    one routing-table entry at a serving node: query rate limiter, ping maintenance, GOOD/UNKNOWN/BAD
+Specifications
+  specs/DhtCrawl.tla (+ DhtCrawlMC, DhtCrawlTrace)  one crawl of one routing table: Crawl, _find, _contact_node,
+        on_find_response, request time-outs, the caching store.  P1 budget, P2 no node contacted twice, P3 closest known
+        candidate first, P4 termination (deadlock freedom + liveness under fairness), P5 values / nodes reported,
+        P6 caching at the closest responder without values.
+  specs/DhtFind.tla   find / find_values / find_nodes above the crawls: one crawl per routing table, results reported
+        together, with and without debug.  F1.
+  specs/DhtNode.tla (+ DhtNodeMC, DhtNodeTrace)  one routing-table entry at a serving node: sliding-window query
+        limiter (N1, N2), GOOD/UNKNOWN/BAD per the docstring (N3), PingChurn.take_step (N4, N5), and the link from a
+        lookup's find request to the failure counter.
 
 Bindings
- R  the TLC state graphs of generated fixed worlds (every interleaving of answers, time-outs and loop drains) and
-    `-simulate` behaviours with the shipped constants are executed action by action on a real DHTCommunity whose
-    peers are puppets with real keys (answers fabricated and signed by the harness); the projected state
-    (nodes_todo, nodes_tried, requests on the wire, responses, result, caching store) is compared after every action.
- T  real DHT networks (every node a real DHTCommunity with PingChurn) under the virtual clock with loss and dead
-    nodes; crawls and per-node query/ping histories are recorded and validated by TLC against the Trace specs.
+ R  crawl: generated worlds (who answers what) - TLC explores every interleaving of answers, time-outs and loop drains;
+    every edge of the dumped graph is executed on a real DHTCommunity whose peers are puppets with real keys (answers
+    fabricated and signed by the harness) and nodes_todo / nodes_tried / the requests on the wire / responses / result /
+    caching store are compared after every action.  `-simulate` behaviours with the shipped constants (24/4/8/top-4)
+    on 30..60 node universes likewise.
+    routing-table entry: depth-bounded graphs with the shipped time constants (5 s and 1 s ticks, clock jumps up to
+    870 s) + `-simulate` behaviours with the shipped limit of 10: real ping/find requests, real introduction requests,
+    real take_step, real find_values; entry state, outstanding requests, status and the reaction on the wire compared.
+    find: every TLC state (0..2 routing tables incl. IPv6, value lists, values/nodes, debug) is one real call.
+ T  real DHT networks (every node a real DHTCommunity with PingChurn, default settings) under a seeded scheduler with
+    loss, dead nodes and a hammering client: every crawl (find_values, store_value) is recorded as DhtCrawl steps with
+    the projection of the real Crawl object and validated by TLC (DhtCrawlTrace, all invariants in every state); every
+    (server, requester) request history with microsecond times is validated against the limiter (DhtNodeTrace).
+
+Genuine defects on the pinned tree (proposed_fixes/G02-1, G02-2; the check passes with VERIF_REPO=<patched tree>):
+  G02-1 find(..., debug=True) raises TypeError with more than one routing table (GET /dht/values on a dual-stack node)
+  G02-2 find_nodes(..., debug=True) raises TypeError (`_find` ignores debug for node lookups)
+
+Allowed and noted (the intent is not stated; nothing is demanded):
+  * a requester that does not fit in the routing table is never rate limited (the limiter state lives in the entry):
+    measured by `observe_unadmitted`, counted in the network runs (`not_admitted`)
+  * an entry dropped as BAD and re-created starts a new limiter window
+  * answers to find requests sent through a Node object that came out of another node's answer do not credit the
+    routing-table entry of that node (last_response / failed live on the crawl's own object)
+  * the caching store (one node < TARGET_NODES) always stores the values in the finder's own storage as well
+  * find_nodes reports every node contacted, answered or not; store_value therefore may pick token-less nodes
+  * an empty routing table of one address family makes find raise DHTError although the other family has nodes
 """
 from __future__ import annotations
 
@@ -50,6 +79,16 @@ def lap(ctx, name):
         if os.environ.get("G02_TIMING"):
             print("  [%s] %.1fs" % (name, now - _T[0]))
     _T[0] = now
+
+
+def canon(g):
+    """edges in a canonical order: the walks chosen by edge_cover do not depend on the order TLC's workers wrote them"""
+    key = {sid: repr(sorted(st.items())) for sid, st in g.states.items()}     # (state ids are fingerprints: not stable)
+    g.edges.sort(key=lambda e: (key[e[0]], e[1], repr(e[2]), key[e[3]]))
+    g.init.sort(key=lambda sid: key[sid])
+    g.out = {}
+    g.finish()
+    return g
 
 
 def need_coverage(r, actions, what):
@@ -196,12 +235,13 @@ def replay_steps(ctx, world, consts, steps, info, tag):
 
 
 _PUPPETS = {}
+SEED = [0]
 
 
 def puppets(n):
     from ..g02_world import Puppets
     if n not in _PUPPETS:
-        _PUPPETS[n] = Puppets(n, TARGET)
+        _PUPPETS[n] = Puppets(n, TARGET, seed=SEED[0])
     return _PUPPETS[n]
 
 
@@ -220,10 +260,10 @@ def prep_world_graphs(rng, tag, n, consts, maxlen, modes, nworlds):
         try:
             mod, cfg = write_world_module(tmp, "G02w", consts, worlds, modes)
             dot = os.path.join(tmp, "g.dot")
-            r = tlc(mod, cfg, cwd=tmp, java_opts=LIB, dump=dot, deadlock_off=False, workers=4)
+            r = tlc(mod, cfg, cwd=tmp, java_opts=LIB, dump=dot, deadlock_off=False, workers=4, timeout=900)
             if not r.ok:
                 raise MachineryError("DhtCrawl worlds %s: TLC reports %s on the specification itself" % (tag, r.violated))
-            return r, parse_dot(dot)
+            return r, canon(parse_dot(dot))
         finally:
             shutil.rmtree(tmp, ignore_errors=True)
     return dict(tag=tag, n=n, consts=consts, worlds=worlds, job=job)
@@ -234,7 +274,8 @@ def replay_world_graphs(ctx, prep, max_ops=None):
     executed on the real code (or a seeded sample of max_ops operations)"""
     tag, n, consts, worlds = prep["tag"], prep["n"], prep["consts"], prep["worlds"]
     r, g = prep["future"].result()
-    need_coverage(r, CRAWL_ACTIONS, "DhtCrawl worlds " + tag)
+    # (whether some world ends with a caching store depends on the generated answers: demanded of the big batches only)
+    need_coverage(r, CRAWL_ACTIONS if len(worlds) >= 8 else CRAWL_ACTIONS[:4], "DhtCrawl worlds " + tag)
     ctx.add_tlc(tag, r)
     world = puppets(n)
     nwalks = nops = 0
@@ -338,7 +379,7 @@ _NODEWORLD = []
 def node_world():
     from ..g02_world import NodeWorld
     if not _NODEWORLD:
-        _NODEWORLD.append(NodeWorld())
+        _NODEWORLD.append(NodeWorld(SEED[0]))
     else:
         from ..g02_world import get_loop
         get_loop("plain")
@@ -393,10 +434,10 @@ def prep_node_graph(module, cfgname):
         tmp = scratch_dir("g02n-")
         try:
             dot = os.path.join(tmp, "g.dot")
-            r = tlc(module, cfgname, dump=dot, workers=4)
+            r = tlc(module, cfgname, dump=dot, workers=1)      # depth-bounded: one worker = strict breadth-first order
             if not r.ok:
                 raise MachineryError("%s: TLC reports %s on the specification itself" % (cfgname, r.violated))
-            return r, parse_dot(dot)
+            return r, canon(parse_dot(dot))
         finally:
             shutil.rmtree(tmp, ignore_errors=True)
     return dict(cfg=cfgname, job=job)
@@ -483,7 +524,7 @@ def prep_find():
             r = tlc("DhtFind.tla", "DhtFind_mc.cfg", dump=dot, workers=1)
             if not r.ok:
                 raise MachineryError("DhtFind_mc: TLC reports %s on the specification itself" % r.violated)
-            return r, parse_dot(dot)
+            return r, canon(parse_dot(dot))
         finally:
             shutil.rmtree(tmp, ignore_errors=True)
     return dict(job=job)
@@ -494,21 +535,23 @@ def replay_find(ctx, prep):
     r, g = prep["future"].result()
     need_coverage(r, ["Return"], "DhtFind_mc")
     ctx.add_tlc("find", r)
-    world = FindWorld()
+    world = FindWorld(SEED[0])
     n = 0
     for src, name, _args, dst in g.edges:
         st0, st1 = g.states[src], g.states[dst]
         tables = tuple(tuple(t) for t in st0["tables"])
-        got = world.run_find(tables, st0["debug"])
+        got = world.run_find(tables, st0["debug"], st0["mode"])
         want = {"done": st1["ret"]["done"], "ok": st1["ret"]["ok"], "values": tuple(st1["ret"]["values"]),
                 "ncrawls": st1["ret"]["ncrawls"]}
         n += 1
-        ctx.nontrivial(("find", tables, st0["debug"]))
+        ctx.nontrivial(("find", tables, st0["debug"], st0["mode"]))
         d = {k: {"spec": want[k], "impl": got[k]} for k in want if want[k] != got[k]}
         if d:
-            ctx.violation("find:tables=%d:debug=%s:%s" % (len(tables), st0["debug"], got.get("exception", "result")[:40]),
-                          "find_values over %d routing table(s), debug=%s: %s" % (len(tables), st0["debug"], d),
-                          {"part": "find", "tables": tables, "debug": st0["debug"], "impl": got, "spec": want})
+            ctx.violation("find:%s:tables=%d:debug=%s:%s" % (st0["mode"], len(tables), st0["debug"],
+                                                            got.get("exception", "result")[:40]),
+                          "find_%s over %d routing table(s), debug=%s: %s" % (st0["mode"], len(tables), st0["debug"], d),
+                          {"part": "find", "mode": st0["mode"], "tables": tables, "debug": st0["debug"], "impl": got,
+                           "spec": want})
     ctx.evaluated(n)
     ctx.traces(n)
     ctx.note("find_replay", {"calls": n, "states": len(g.states)})
@@ -549,6 +592,12 @@ def validate_traces(ctx, what, module, cfg, traces, tag, expect_reject=False):
         raise MachineryError("%s traces: TLC accepted but visited %d states for %d events + %d traces" % (
             what, r.distinct, nev, len(traces)))
     last = r.error_trace[-1][1] if r.error_trace else {}
+    if not r.error_trace and "violated by the initial state" in r.output:
+        last = {"_raw": r.output[r.output.index("violated by the initial state"):]}
+    if "_raw" in last:          # a state too unusual for the value parser: the two registers are all we need
+        import re
+        m1, m2 = re.search(r"/\\ tid = (\d+)", last["_raw"]), re.search(r"/\\ l = (\d+)", last["_raw"])
+        last = {"tid": int(m1.group(1)) if m1 else None, "l": int(m2.group(1)) if m2 else None}
     tid, l = last.get("tid"), last.get("l")
     bad = traces[tid - 1] if isinstance(tid, int) and 1 <= tid <= len(traces) else None
     ev = bad["events"][l - 1] if bad and isinstance(l, int) and 1 <= l <= len(bad["events"]) else None
@@ -574,6 +623,7 @@ def network_part(ctx, seed, tag, n, **kw):
     ok2 = validate_traces(ctx, "limiter", "DhtNodeTrace.tla", "DhtNodeTrace.cfg", pairs, "trace_limiter_" + tag)
     st = dict(net.stats, nodes=n, wall_s=round(wall, 1), crawl_traces=len(crawls), pair_traces=len(pairs),
               crawl_events=sum(len(c["events"]) for c in crawls), pair_events=sum(len(c["events"]) for c in pairs),
+              unfinished_crawls=sum(1 for c in crawls if not c["finished"]),
               budget_exhausted=sum(1 for c in crawls if len(c["events"][-1]["s"].get("tried", [])) >= 24))
     ctx.note("network_" + tag, st)
     if crawls:
@@ -601,7 +651,8 @@ def trace_controls(ctx, pool, crawls, pairs):
     # (2) one time-out removed from a crawl
     bad2 = None
     for c in crawls:
-        idx = [i for i, e in enumerate(c["events"]) if e["a"] == "Expire"]
+        ev = c["events"]
+        idx = [i for i, e in enumerate(ev) if e["a"] == "Expire" and any(x["chk"] for x in ev[i + 1:])]
         if idx:
             bad2 = copy.deepcopy(c)
             del bad2["events"][idx[0]]
@@ -669,6 +720,13 @@ def observe_unadmitted(ctx):
 def run(tier, seed, replay=None):
     setup_repo_path()
     from concurrent.futures import ThreadPoolExecutor
+    if replay:
+        # every part is a deterministic function of (tier, seed): a replay file is re-executed by running the check again
+        # with the seed and tier it was recorded with; the file itself names the part, the actions and the divergence
+        with open(replay, encoding="utf-8") as f:
+            rec = json.load(f)
+        tier, seed = rec.get("tier", tier), int(rec.get("seed", seed))
+        print("replaying %s (tier %s, seed %d): %s" % (rec.get("signature"), tier, seed, rec.get("description", "")[:200]))
     ctx = Ctx(PID, tier, seed, "model_checking")
     ctx.cov["rule"] = ("crawl: TLC explores every interleaving of answers / time-outs / loop drains of generated worlds, every "
                        "edge of the state graph is executed on a real DHTCommunity (puppet peers with real keys) and the "
@@ -682,18 +740,40 @@ def run(tier, seed, replay=None):
                         "requests sent in one loop iteration time out microseconds apart; the specification lets an "
                         "answer slip in between (superset of the real schedules)"]
     rng = random.Random(seed)
+    random.seed(seed)            # request identifiers of the code under test come from the global generator
+    SEED[0] = seed
     quick = tier == "quick"
-    pool = ThreadPoolExecutor(max_workers=8)
+    pool = ThreadPoolExecutor(max_workers=12)
     try:
+        lap(ctx, "start")
+        small = dict(MaxInit=2, MaxReq=4, MaxTasks=2)
+        mid = dict(MaxInit=3, MaxReq=6, MaxTasks=3)
+        sim_n = 40 if quick else 400
+        preps = {}
+        if quick:
+            preps["g_small"] = prep_world_graphs(rng, "small", 6, small, 4, ["values", "nodes"], 8)
+            preps["s_shipped"] = prep_simulated(rng, seed, "shipped", 30, {}, 8, 20, 140)
+        else:
+            preps["g_small"] = prep_world_graphs(rng, "small", 6, small, 4, ["values", "nodes"], 24)
+            preps["g_mid"] = prep_world_graphs(rng, "mid", 8, mid, 5, ["values", "nodes"], 2)
+            preps["g_shipped6"] = prep_world_graphs(rng, "shipped5", 5, {}, 4, ["values"], 4)
+            preps["s_shipped"] = prep_simulated(rng, seed, "shipped", 30, {}, 8, 200, 140)
+            preps["s_shipped60"] = prep_simulated(rng, seed, "shipped60", 60, {}, 8, 100, 140, nworlds=4)
+        preps["find"] = prep_find()
+        preps["n_t5"] = prep_node_graph("DhtNodeMC.tla", "DhtNode_t5.cfg")
+        preps["n_t1"] = prep_node_graph("DhtNodeMC.tla", "DhtNode_t1.cfg")
+        preps["n_sim1"] = prep_node_sim("DhtNode.tla", "DhtNode_sim1.cfg", seed, sim_n, 80)
+        preps["n_limit10"] = prep_node_sim("DhtNode.tla", "DhtNode_limit10.cfg", seed, sim_n, 80)
+        for pz in preps.values():
+            pz["future"] = pool.submit(pz["job"])
         # ---- model checking of the specifications themselves (in the background) + spec-level negative controls
         jobs = {
-            "crawl_mc": pool.submit(tlc, "DhtCrawlMC.tla", "DhtCrawl_mc.cfg" if quick else "DhtCrawl_mc4.cfg",
-                                    deadlock_off=False, workers=6 if quick else 12, timeout=3000),
-            "crawl_live": pool.submit(tlc, "DhtCrawlMC.tla", "DhtCrawl_live.cfg", deadlock_off=False, workers=2),
+            "crawl_live": pool.submit(tlc, "DhtCrawlMC.tla", "DhtCrawl_live.cfg", deadlock_off=False, workers=4),
             "node_mc": pool.submit(tlc, "DhtNode.tla", "DhtNode_mc.cfg", workers=2),
             "node_churn": pool.submit(tlc, "DhtNode.tla", "DhtNode_churn.cfg", workers=2),
         }
         if not quick:
+            jobs["crawl_mc"] = pool.submit(tlc, "DhtCrawlMC.tla", "DhtCrawl_mc.cfg", deadlock_off=False, workers=8)
             jobs["node_limit10"] = pool.submit(tlc, "DhtNode.tla", "DhtNode_limit10.cfg", workers=4)
         ctl = {
             "crawl: add_response without the nodes_tried check violates InvNoRepeat":
@@ -714,29 +794,10 @@ def run(tier, seed, replay=None):
                 (pool.submit(tlc, "DhtNode.tla", "DhtNode_ctl_remove.cfg", coverage=False, workers=2), "InvChurn"),
             "find: the pinned star-argument merge violates InvFindAll (proposed_fixes/G02-1.diff)":
                 (pool.submit(tlc, "DhtFind.tla", "DhtFind_pinned.cfg", coverage=False, workers=1), "InvFindAll"),
+            "find: the pinned node lookup that ignores debug violates InvFindAll (proposed_fixes/G02-2.diff)":
+                (pool.submit(tlc, "DhtFind.tla", "DhtFind_pinned_nodes.cfg", coverage=False, workers=1), "InvFindAll"),
         }
 
-        lap(ctx, "start")
-        small = dict(MaxInit=2, MaxReq=4, MaxTasks=2)
-        mid = dict(MaxInit=3, MaxReq=6, MaxTasks=3)
-        sim_n = 40 if quick else 400
-        preps = {}
-        if quick:
-            preps["g_small"] = prep_world_graphs(rng, "small", 6, small, 4, ["values", "nodes"], 8)
-            preps["s_shipped"] = prep_simulated(rng, seed, "shipped", 30, {}, 8, 25, 250)
-        else:
-            preps["g_small"] = prep_world_graphs(rng, "small", 6, small, 4, ["values", "nodes"], 24)
-            preps["g_mid"] = prep_world_graphs(rng, "mid", 8, mid, 5, ["values", "nodes"], 3)
-            preps["g_shipped10"] = prep_world_graphs(rng, "shipped10", 10, {}, 6, ["values"], 1)
-            preps["s_shipped"] = prep_simulated(rng, seed, "shipped", 30, {}, 8, 200, 250)
-            preps["s_shipped60"] = prep_simulated(rng, seed, "shipped60", 60, {}, 8, 100, 250, nworlds=4)
-        preps["find"] = prep_find()
-        preps["n_t5"] = prep_node_graph("DhtNodeMC.tla", "DhtNode_t5.cfg")
-        preps["n_t1"] = prep_node_graph("DhtNodeMC.tla", "DhtNode_t1.cfg")
-        preps["n_sim1"] = prep_node_sim("DhtNode.tla", "DhtNode_sim1.cfg", seed, sim_n, 80)
-        preps["n_limit10"] = prep_node_sim("DhtNode.tla", "DhtNode_limit10.cfg", seed, sim_n, 80)
-        for pz in preps.values():
-            pz["future"] = pool.submit(pz["job"])
         # ---- binding R: crawl
         if quick:
             replay_world_graphs(ctx, preps["g_small"], max_ops=6000)
@@ -744,7 +805,7 @@ def run(tier, seed, replay=None):
         else:
             replay_world_graphs(ctx, preps["g_small"])
             replay_world_graphs(ctx, preps["g_mid"], max_ops=120000)
-            replay_world_graphs(ctx, preps["g_shipped10"], max_ops=60000)
+            replay_world_graphs(ctx, preps["g_shipped6"], max_ops=60000)
             replay_simulated(ctx, preps["s_shipped"])
             replay_simulated(ctx, preps["s_shipped60"])
         lap(ctx, "crawl_replay")
@@ -757,9 +818,20 @@ def run(tier, seed, replay=None):
         replay_node_sim(ctx, preps["n_sim1"], 1, "sim1")
         replay_node_sim(ctx, preps["n_limit10"], 1, "limit10")
         observe_unadmitted(ctx)
+        ctx.note("allowed_and_noted", [
+            "a requester that does not fit in the routing table is never rate limited (see observation_unadmitted)",
+            "an entry dropped as BAD and re-created starts a new limiter window",
+            "find answers received through a Node object taken from another node's answer do not credit the table entry",
+            "the caching store also stores the values in the finder's own storage (one node < TARGET_NODES)",
+            "find_nodes reports every contacted node, answered or not",
+            "an empty routing table of one address family makes find raise although the other family has nodes"])
         lap(ctx, "node_replay")
         # ---- binding T: real networks
         crawls, pairs, ok, _st = network_part(ctx, seed, "n24", 24)
+        _c, _p, ok2, st2 = network_part(ctx, seed + 500, "hammer", 10, loss=0.0, kill=0, lookups=5, duration=70.0, hammer=40)
+        ok = ok and ok2
+        if ok2 and not st2["refused"]:
+            raise MachineryError("the hammering scenario produced no refused request (vacuous limiter traces)")
         if not quick:
             network_part(ctx, seed + 1000, "n16", 16, loss=0.0, kill=0, lookups=40)
             network_part(ctx, seed + 2000, "n40", 40, loss=0.08, kill=8, lookups=60, duration=200.0)
@@ -782,6 +854,11 @@ def run(tier, seed, replay=None):
             ctx.control(name, r.violated == inv)
         lap(ctx, "background_tlc")
         ctx.cov["exhaustive"] = True
+    except MachineryError as e:
+        if not ctx.violations:
+            raise
+        # a part could not run to its end AFTER the real code had already been seen to diverge: report the divergence
+        ctx.note("machinery_error_after_violation", str(e)[:500])
     finally:
         pool.shutdown(wait=False, cancel_futures=True)
         vloop.uninstall()
